@@ -1,4 +1,5 @@
 import OutlineModel.Proofs.TunnelTime
+import OutlineModel.Proofs.TieTunnelTime
 import OutlineModel.Model.Metrics
 import OutlineModel.Props.C19
 import OutlineModel.Gen.Wiring
@@ -86,5 +87,64 @@ theorem empty_key_id_is_stopped (m : Metrics.M) (id : Nat) (a : Metrics.ClientAd
   intro m1
   simp only [m1, Metrics.tcpOpen, Metrics.tcpAuth, Metrics.tcpClose, List.find?_cons, beq_self_eq_true, ha]
   simp [Metrics.addData, Metrics.addIfNonZero, ha]
+
+
+/-! ### The same statements about the code itself
+
+`Gen.Code.tunnelTimeMetrics.startConnection / stopConnection / reportTunnelTime / Collect` are TRANSLATED from
+prometheus/metrics.go on every run (extract/golean.go): the clock is the parameter `now`, the database and
+`netip.Addr.AsSlice` are parameters, the two counter vectors are seen through the effect log (`Tie.TunnelTime.perKeyOf`,
+`perLocOf`).  For all inputs the translated operations never panic and are simulated by the model's. -/
+
+theorem code_start_refines_model (get : GoRT.Opaque "ipinfo.IPInfoMap" → List UInt8 → Gen.Code.IPInfo × Option String)
+    (asSlice : GoRT.Opaque "netip.Addr" → List UInt8) (asnLabel : Int → String) (now : Nat)
+    (c : Gen.Code.tunnelTimeMetrics) (t : TT) (k : Gen.Code.IPKey) (h : Tie.TunnelTime.Sim asnLabel c t) :
+    ∃ c', Gen.Code.tunnelTimeMetrics.startConnection get asSlice (now : Int) c k = some c' ∧ c'.ip2info = c.ip2info ∧
+      Tie.TunnelTime.Sim asnLabel c'
+        (start t (Tie.TunnelTime.absKey k) now (Tie.TunnelTime.locOf asnLabel (Tie.TunnelTime.lookupInfo get asSlice c k))) :=
+  Tie.TunnelTime.start_tie get asSlice asnLabel now c t k h
+
+theorem code_stop_refines_model (asnLabel : Int → String) (now : Nat) (c : Gen.Code.tunnelTimeMetrics) (t : TT)
+    (k : Gen.Code.IPKey) (h : Tie.TunnelTime.Sim asnLabel c t) :
+    ∃ c', Gen.Code.tunnelTimeMetrics.stopConnection asnLabel (now : Int) c k = some c' ∧ c'.ip2info = c.ip2info ∧
+      Tie.TunnelTime.Sim asnLabel c' (stop t (Tie.TunnelTime.absKey k) now) :=
+  Tie.TunnelTime.stop_tie asnLabel now c t k h
+
+theorem code_collect_refines_model (asnLabel : Int → String) (now : Nat) (c : Gen.Code.tunnelTimeMetrics) (t : TT)
+    (h : Tie.TunnelTime.Sim asnLabel c t) :
+    ∃ c', Gen.Code.tunnelTimeMetrics.Collect (now : Int) asnLabel c = some c' ∧ c'.ip2info = c.ip2info ∧
+      Tie.TunnelTime.Sim asnLabel c' (collect t now) :=
+  Tie.TunnelTime.collect_tie asnLabel now c t h
+
+/-- **code_per_key_equals_covered**: the refinement theorem about the translated code: after ANY history of translated
+    startConnection / stopConnection / Collect calls from the empty collector, with a non-decreasing clock, followed
+    by a scrape at `tEnd`, the code has not panicked and what its effect log added to `tunnel_time_seconds{access_key=a}`
+    is the covered time of the specification, summed over the clients of that key. -/
+theorem code_per_key_equals_covered
+    (get : GoRT.Opaque "ipinfo.IPInfoMap" → List UInt8 → Gen.Code.IPInfo × Option String)
+    (asSlice : GoRT.Opaque "netip.Addr" → List UInt8) (asnLabel : Int → String) (db : GoRT.Opaque "ipinfo.IPInfoMap")
+    (t0 : Nat) (cops : List Tie.TunnelTime.COp) (tEnd : Nat) (ks : List IPKey) (a : String) :
+    let ops := cops.map (Tie.TunnelTime.absOp get asSlice asnLabel db)
+    Monotone t0 ops → lastTime t0 ops ≤ tEnd → ks.Nodup → (∀ k ∈ startKeys ops, k ∈ ks) →
+    ∃ c', Tie.TunnelTime.codeRun get asSlice asnLabel { Gen.Code.tunnelTimeMetrics.zero with ip2info := db }
+            (cops ++ [.collect tEnd]) = some c' ∧
+      getOf (Tie.TunnelTime.perKeyOf c'.eff) a =
+        ((ks.filter (·.key == a)).map (fun k => (specRun k ⟨0, t0, 0⟩ (ops ++ [.collect tEnd])).covered)).sum := by
+  intro ops hmono hEnd hks hall
+  obtain ⟨c', h1, h2⟩ := Tie.TunnelTime.codeRun_sim get asSlice asnLabel (cops ++ [.collect tEnd])
+    { Gen.Code.tunnelTimeMetrics.zero with ip2info := db } TT.init (Tie.TunnelTime.sim_zero asnLabel db)
+  refine ⟨c', h1, ?_⟩
+  rw [← h2.perKey]
+  have : (cops ++ [Tie.TunnelTime.COp.collect tEnd]).map (Tie.TunnelTime.absOp get asSlice asnLabel db) = ops ++ [.collect tEnd] := by
+    simp [ops, Tie.TunnelTime.absOp]
+  simp only [this]
+  exact TunnelTime.per_key_equals_covered t0 ops tEnd ks hmono hEnd hks hall a
+
+/- non-vacuity: a concrete history of translated operations runs and reports 7 s for key "a" -/
+example :
+    let k : Gen.Code.IPKey := { ip := ⟨5⟩, accessKey := "a" }
+    (Tie.TunnelTime.codeRun (fun _ _ => (Gen.Code.IPInfo.zero, none)) (fun _ => [8, 8, 8, 8]) (fun _ => "") 
+      Gen.Code.tunnelTimeMetrics.zero [.start k 10, .start k 12, .stop k 15, .stop k 17, .collect 20]).map
+        (fun c => getOf (Tie.TunnelTime.perKeyOf c.eff) "a") = some 7 := by decide
 
 end OutlineModel.Props.C17
